@@ -139,6 +139,17 @@ func (fr *FileReader) readNextBlock() (*Block, error) {
 	if err := blockHeader.Deserialize(headerBuf); err != nil {
 		return nil, err
 	}
+	// A block header that claims more payload than the file still holds cannot belong to a
+	// complete block (torn tail or forged/damaged size field). Detect that from the file
+	// length *before* allocating: CompressedSize comes straight from disk and may claim up
+	// to 4 GiB. Such a tail is the end of the readable log, like a short block header.
+	remaining, err := fr.remainingBytes(offset + BlockHeaderSize)
+	if err != nil {
+		return nil, err
+	}
+	if int64(blockHeader.CompressedSize) > remaining {
+		return nil, io.EOF
+	}
 	// Read compressed data
 	compressedData := make([]byte, blockHeader.CompressedSize)
 	if _, err := io.ReadFull(fr.file, compressedData); err != nil {
@@ -157,6 +168,18 @@ func (fr *FileReader) readNextBlock() (*Block, error) {
 	}
 	block.Offset = offset
 	return block, nil
+}
+
+// remainingBytes returns how many bytes the file holds from position pos to its end.
+func (fr *FileReader) remainingBytes(pos int64) (int64, error) {
+	info, err := fr.file.Stat()
+	if err != nil {
+		return 0, err
+	}
+	if info.Size() < pos {
+		return 0, nil
+	}
+	return info.Size() - pos, nil
 }
 
 // BlockScanResult contains aggregated statistics from scanning block headers.
